@@ -37,6 +37,28 @@ var c14Progs = []detProg{
     println(o == p, o.b);
 }
 `}},
+	{Name: "literal-parts-with-visible-effects", Tree: true, Mods: map[string]string{"main": `let N = 0;
+fn next(label: str) -> int {
+    N += 1;
+    println(label, N);
+    N
+}
+fn fail(msg: str) -> int {
+    throw(msg);
+    0
+}
+fn main() {
+    let o = new { epsilon: next("e"), alpha: next("a"), delta: next("d"), beta: next("b"), gamma: next("g") };
+    println(o.alpha, o.beta, o.gamma, o.delta, o.epsilon);
+    let c = new { f2: fn() -> int { 2 }, f1: fn() -> int { 1 }, f3: fn() -> int { 3 } };
+    println(c.f1(), c.f2(), c.f3());
+    let r = try {
+        new { z: fail("first"), y: fail("second"), x: fail("third") };
+        "none"
+    } catch e { e.message };
+    println(r);
+}
+`}},
 	{Name: "object-to-json", Tree: true, Mods: map[string]string{"main": `fn main() {
     let o = new { b: 1, a: [1, 2], c: "x" };
     println(o.to_json());
